@@ -1,8 +1,12 @@
 """C01 - binary round trip."""
 from vf.e1 import E1Runner
-from . import prim
+from vf import ch
+from . import prim, l2
 
 
 def run(run, tier):
     r = E1Runner(run)
     prim.run_group(run, r, prim.RT_HARNESSES)
+    l2.validate_standins(run, tier, run.seed, "rt")
+    ch.run_harnesses(run, "C01", l2.harnesses(tier, run.seed, "rt"), timeout=120 if tier == "quick" else 400)
+    l2.describe(run, tier)
